@@ -616,7 +616,6 @@ func rangedOver(fn *ssa.Function, m ssa.Value) bool {
 	return false
 }
 
-
 // checkPairwiseLoops: R10.9. A loop over a list nested in a loop over the same list does a quadratic amount of work in the
 // length of the list. That is harmless for lists whose length is set by the corpus; it is not for a list that holds an
 // entry per line of the input (the notice pseudo-matches): a megabyte of short notice lines keeps Match busy for minutes.
